@@ -23,9 +23,11 @@ import (
 	"github.com/tink-crypto/tink-go/v2/keyset"
 	"github.com/tink-crypto/tink-go/v2/mac"
 	"github.com/tink-crypto/tink-go/v2/mac/hmac"
+	"github.com/tink-crypto/tink-go/v2/prf"
 	tinkpb "github.com/tink-crypto/tink-go/v2/proto/tink_go_proto"
 	"github.com/tink-crypto/tink-go/v2/secretdata"
 	"github.com/tink-crypto/tink-go/v2/signature"
+	"github.com/tink-crypto/tink-go/v2/streamingaead"
 	"github.com/tink-crypto/tink-go/v2/streamingaead/aesctrhmac"
 	"github.com/tink-crypto/tink-go/v2/verifsim/catalog"
 	"github.com/tink-crypto/tink-go/v2/verifsim/core"
@@ -41,7 +43,7 @@ func TestMain(m *testing.M) {
 	core.DeclareProbes("redraw-loop-taken", "start-from-parsed-handle", "branch-to-earlier-handle", "refused-disable-primary", "refused-delete-primary",
 		"refused-setprimary-nonenabled", "op-on-absent-id", "addkey-idreq-collision", "addkey-idreq-kept", "same-key-twice", "readd-deleted-fixed-id",
 		"handle-fails-no-primary", "old-handle-reinspected", "enable-destroyed", "error-leaves-unchanged-checked", "nil-template", "unknown-prefix-template", "add-custom-key-type(legacy NewKeyData path)", "malformed-start-keyset-refused",
-		"add-catalog-entry", "add-catalog-entry-with-id-requirement-but-no-prefix", "annotations-changed")
+		"add-catalog-entry", "add-catalog-entry-with-id-requirement-but-no-prefix", "annotations-changed", "template-with-prefix-its-type-may-not-support")
 	// "add-refused-after-scripted-collisions" and "manager-designated-primary-itself" cannot occur on today's tree; they
 	// are counted if an otherwise conforming manager ever does that
 	stubkm.Register()
@@ -315,6 +317,10 @@ func (w *world) compare(h *keyset.Handle, m *model, ctx string) {
 			}
 		}
 		k := e.Key()
+		if k == nil {
+			w.r.Violation("C11/entry-without-key", fmt.Sprintf("%s: the entry under ID %d (%v) holds no key (model: %s)", ctx, id, e.KeyStatus(), m))
+			return
+		}
 		if req, has := k.IDRequirement(); has && req != id {
 			w.r.Violation("C11/id-requirement-not-kept", fmt.Sprintf("%s: key requires ID %d but sits in the keyset under ID %d", ctx, req, id))
 			return
@@ -382,7 +388,7 @@ func (w *world) recheck(s *snapshot, idx int) {
 			w.r.Violation("C11/old-handle-changed", fmt.Sprintf("%s: Entry(%d): %v", ctx, i, err))
 			return
 		}
-		if e.KeyID() != s.ids[i] || e.KeyStatus() != s.stat[i] || e.IsPrimary() != s.prim[i] || !e.Key().Equal(s.keys[i]) {
+		if e.KeyID() != s.ids[i] || e.KeyStatus() != s.stat[i] || e.IsPrimary() != s.prim[i] || (e.Key() == nil) != (s.keys[i] == nil) || (e.Key() != nil && !e.Key().Equal(s.keys[i])) {
 			w.r.Violation("C11/old-handle-changed", fmt.Sprintf("%s: entry %d is now %d:%v:%v, was %d:%v:%v", ctx, i, e.KeyID(), e.KeyStatus(), e.IsPrimary(), s.ids[i], s.stat[i], s.prim[i]))
 			return
 		}
@@ -630,7 +636,7 @@ func (w *world) step(op string) {
 			w.addSucceeded(op, id, nil)
 		}
 	case "AddBad":
-		kind := rapid.SampledFrom([]string{"nil", "unknown-prefix", "creation-fails", "creation-fails-params", "unknown-type-url", "garbage-value"}).Draw(t, "badKind")
+		kind := rapid.SampledFrom([]string{"nil", "unknown-prefix", "creation-fails", "creation-fails-params", "unknown-type-url", "garbage-value", "prefix-not-valid-for-type", "prefix-not-valid-for-type"}).Draw(t, "badKind")
 		w.scriptIDs()
 		var id uint32
 		var err error
@@ -653,6 +659,15 @@ func (w *world) step(op string) {
 				id, err = w.mgr.AddNewKeyFromParameters(p)
 			case "unknown-type-url":
 				id, err = w.mgr.Add(&tinkpb.KeyTemplate{TypeUrl: "type.googleapis.com/google.crypto.tink.NoSuchKey", OutputPrefixType: tinkpb.OutputPrefixType_TINK})
+			case "prefix-not-valid-for-type":
+				// a known key type with an output prefix type it does not support: the parameters parser refuses, and
+				// whatever the manager's other paths make of it, a failure must leave the keyset as it was
+				tp := rapid.SampledFrom([]func() *tinkpb.KeyTemplate{aead.XAES256GCM192BitNonceKeyTemplate, prf.HMACSHA256PRFKeyTemplate, prf.HKDFSHA256PRFKeyTemplate,
+					aead.AES128GCMKeyTemplate, aead.AES256GCMSIVKeyTemplate, mac.HMACSHA256Tag128KeyTemplate, signature.ED25519KeyTemplate, streamingaead.AES128GCMHKDF4KBKeyTemplate}).Draw(t, "badPrefixTpl")()
+				pfx := rapid.SampledFrom([]tinkpb.OutputPrefixType{tinkpb.OutputPrefixType_CRUNCHY, tinkpb.OutputPrefixType_LEGACY, tinkpb.OutputPrefixType_TINK,
+					tinkpb.OutputPrefixType_WITH_ID_REQUIREMENT, tinkpb.OutputPrefixType(9)}).Draw(t, "badPrefix")
+				r.Probe("template-with-prefix-its-type-may-not-support")
+				id, err = w.mgr.Add(withPrefix(tp, pfx))
 			case "garbage-value":
 				kt := aead.AES128GCMKeyTemplate()
 				kt.Value = []byte{0xff, 0xff, 0xff, 0x01, 0x02}
